@@ -56,10 +56,7 @@ func main() {
 		},
 	)
 	if err != nil {
-		if *strict {
-			log.Fatal(err)
-		}
-		fmt.Fprintln(os.Stderr, "warning:", err)
+		log.Fatal(err)
 	}
 }
 
